@@ -56,6 +56,9 @@ def classify(data):
     """returns ('ok', class name) | ('exc', bucket, repr) | ('hang',)"""
     from amoco.system.core import read_program
 
+    import time
+
+    t0 = time.time()
     try:
         with visa.time_guard(BUDGET):
             p = read_program(data)
@@ -90,6 +93,10 @@ def classify(data):
             pass
         return ("exc", "escape:MemoryError:%s" % (site or "?"), "MemoryError (allocation beyond the address-space limit for a %d byte input)" % len(data))
     except Exception as x:
+        if time.time() - t0 >= BUDGET:
+            # the budget ran out and the timeout was replaced by a secondary exception on its way out (e.g. the except
+            # clause of read_program naming a module whose import was interrupted): still a non-termination
+            return ("hang", "?")
         return ("exc", bucket_of_exception("escape", x), repr(x)[:300])
 
 
